@@ -160,7 +160,10 @@ LookupClauses(kind, a, o, r) ==
     [] o.what = "iter" -> If(~r.ok \/ r.val # [k \in 1..n |-> a.items[k].id], "C18:iter")
     [] o.what = "index" ->
          IF o.key >= 0 /\ o.key < n THEN If(~r.ok \/ r.val # <<a.items[o.key + 1].id>>, "C18:index")
-         ELSE IF o.key >= n THEN If(r.ok, "C18:index_out_of_range") ELSE {}
+         ELSE IF o.key >= n \/ o.key < 0 - n THEN If(r.ok, "C18:index_out_of_range")
+         \* a negative position inside the range: the statement fixes positions 0..n-1 only, so a refusal
+         \* is not judged - but an answer must be the item Python's convention designates, not another
+         ELSE If(r.ok /\ r.val # <<a.items[n + o.key + 1].id>>, "C18:index")
     [] o.what = "label" ->
          IF \E k \in 1..n : a.items[k].label = o.key
          THEN LET k == CHOOSE k \in 1..n : a.items[k].label = o.key /\ \A j \in 1..(k - 1) : a.items[j].label # o.key
